@@ -69,7 +69,19 @@ impl<Consumer> Pool<Consumer>
     pub(crate) fn add(&self, key_hash: KeyHash) {
         let pool_size = self.pool_size.0;
         let index = thread_rng().gen_range(0..pool_size);
+        #[cfg(feature = "cached_verif")]
+        crate::cache::verif::tap(|| format!("pool.idx {}", index));
+        #[cfg(feature = "cached_verif")]
+        crate::cache::verif::point("pool.add");
         self.buffers[index].write().add(key_hash);
+    }
+}
+
+#[cfg(feature = "cached_verif")]
+impl<Consumer> Pool<Consumer>
+    where Consumer: BufferConsumer {
+    pub(crate) fn verif_buffers(&self) -> Vec<Vec<KeyHash>> {
+        self.buffers.iter().map(|buffer| buffer.read().key_hashes.clone()).collect()
     }
 }
 
